@@ -128,8 +128,81 @@ static inline void %(s)s_assign_move(%(s)s *s, %(s)s *o) { %(s)s t; %(s)s_move(&
         tr.assume("std::shared_ptr", "reference model: {pointer, control block with an exact owner count}; last owner deletes the object (lib/stdlib.py)")
         return s
 
+    GHOSTS = ("verif_gi", "verif_gj", "verif_hi", "verif_hj")
+
+    def flat_fields(self, t, path=""):
+        """access paths of the scalar leaves of C++ type t (for field-wise equality in contracts)"""
+        tr = self.tr
+        if t.kind in ("builtin", "ptr", "enum"):
+            return [path]
+        if t.kind == "rec":
+            fl = self.record(t.name)
+            if fl is None and t.name in tr.ast.Rname:
+                fl = tr.record_fields(t.name) if hasattr(tr, "record_fields") else None
+            if fl is None:
+                raise ExtractionBreak("tracked std::vector: element type '%s' has no flat field list" % t.name)
+            out = []
+            for (fn, ft) in fl:
+                out += self.flat_fields(ft, path + "." + fn)
+            return out
+        raise ExtractionBreak("tracked std::vector: element type %s" % t.key())
+
+    def ensure_tvec(self, canon):
+        """value-tracking std::vector model: {b, n, cap} with b one heap block of cap elements, n <= cap.  Operations that do
+        not reallocate are CODE; reallocation is an ASSUMED contract that preserves the elements at the ghost indices
+        verif_gi/gj/hi/hj (a sound instance of 'all elements preserved')."""
+        tr = self.tr
+        s = tr.need_record(canon)
+        if s in self.text:
+            return s
+        t = parse_type(targs(canon)[0])
+        T = tr.ctype(t)
+        flat = self.flat_fields(t)
+        OOR = tr.exc_tag("std::out_of_range")
+        LE = tr.exc_tag("std::length_error")
+        MAXSZ = "1099511627776ul"
+        self.text[s] = """
+static inline void %(s)s_init(%(s)s *v) { v->b = 0; v->n = 0; v->cap = 0; }
+static inline void %(s)s_dtor(%(s)s *v) { if (v->b) free(v->b); v->b = 0; v->n = 0; v->cap = 0; }
+static inline void %(s)s_clear(%(s)s *v) { v->n = 0; }
+#define %(s)s_SNAP(G) ((G) < v->n ? v->b[G] : (%(T)s){0})
+#define %(s)s_SNAPS %(s)s_SNAP(verif_gi), %(s)s_SNAP(verif_gj), %(s)s_SNAP(verif_hi), %(s)s_SNAP(verif_hj)
+static inline void %(s)s_push_back(%(s)s *v, %(T)s *x) { %(T)s t = *x; if (v->n == v->cap) %(s)s_grow(v, %(s)s_SNAPS); v->b[v->n] = t; v->n++; }
+static inline %(T)s *%(s)s_at(%(s)s *v, unsigned long i) { if (i >= v->n) { __verif_exc = %(OOR)s; return v->b; } return v->b + i; }
+static inline void %(s)s_resize(%(s)s *v, unsigned long n) { if (n <= v->n) { v->n = n; return; } if (n > %(MAXSZ)s) { __verif_exc = %(LE)s; return; } %(s)s_grow_to(v, n, %(s)s_SNAPS); }
+""" % dict(s=s, T=T, OOR=OOR, LE=LE, MAXSZ=MAXSZ)
+        def preserved(upto_old_n=True):
+            out = []
+            for G in self.GHOSTS:
+                for f in flat:
+                    out.append("IMP(%s < __CPROVER_old(v->n), v->b[%s]%s == s_%s%s)" % (G, G, f, G, f))
+            return out
+        def zeroed():
+            out = []
+            for G in self.GHOSTS:
+                for f in flat:
+                    out.append("IMP(%s >= __CPROVER_old(v->n) && %s < v->n, v->b[%s]%s == 0)" % (G, G, G, f))
+            return out
+        FRESH = "__CPROVER_is_fresh(v->b, v->cap * sizeof(%s))" % T
+        SN = "".join(", %s s_%s" % (T, G) for G in self.GHOSTS)
+        self.contracts[s + "_grow"] = ("void %s_grow(%s *v" + SN + ")\n__CPROVER_requires(__CPROVER_rw_ok(v, sizeof(*v)) && v->n == v->cap && v->cap < %s)\n"
+            "__CPROVER_ensures(v->cap > __CPROVER_old(v->cap) && v->cap <= %s && v->n == __CPROVER_old(v->n))\n__CPROVER_ensures(%s)\n%s\n__CPROVER_assigns(*v)\n__CPROVER_frees(v->b)") % (
+            s, s, MAXSZ, MAXSZ, FRESH, "\n".join("__CPROVER_ensures(%s)" % e for e in preserved()))
+        self.contracts[s + "_grow_to"] = ("void %s_grow_to(%s *v, unsigned long n" + SN + ")\n__CPROVER_requires(__CPROVER_rw_ok(v, sizeof(*v)) && n > v->n && n <= %s)\n"
+            "__CPROVER_ensures(v->cap >= n && v->cap <= %s && v->n == n)\n__CPROVER_ensures(%s)\n%s\n__CPROVER_assigns(*v)\n__CPROVER_frees(v->b)") % (
+            s, s, MAXSZ, MAXSZ, FRESH, "\n".join("__CPROVER_ensures(%s)" % e for e in preserved() + zeroed()))
+        tr.opts.setdefault("stub_may_throw", [])
+        tr.opts["stub_may_throw"] = list(tr.opts["stub_may_throw"]) + [n for n in (s + "_at", s + "_resize") if n not in tr.opts["stub_may_throw"]]
+        self.model_deps = getattr(self, "model_deps", {})
+        self.model_deps[s + "_push_back"] = [s + "_grow"]
+        self.model_deps[s + "_resize"] = [s + "_grow_to"]
+        tr.assume("std::vector (value-tracking model)", "{b, n, cap}: one heap block of cap elements, n <= cap; size/at/back/operator[]/push_back without reallocation/shrinking resize/clear are CODE over that block; reallocation (push_back at n == cap, growing resize) is an ASSUMED contract: fresh block, larger capacity, elements preserved at the ghost indices verif_gi/gj/hi/hj (a sound instance of 'all elements preserved'; new elements of a growing resize are zero there); max_size modelled as 2^40: push_back on a vector of 2^40 elements is outside the model (callers' contracts require fewer) (lib/stdlib.py)")
+        return s
+
     def ensure_vec(self, canon):
         tr = self.tr
+        if tr.opts.get("tracked_vec") and canon.startswith("std::vector<"):
+            return self.ensure_tvec(canon)
         s = tr.need_record(canon)
         if s in self.text:
             return s
@@ -334,7 +407,7 @@ static inline void verif_lock_guard_dtor(std_lock_guard_std_mutex *g) { g->m->g_
                 if self.tr.record_cname(canon) == sname:
                     out.append(op)
             return out
-        return []
+        return list(getattr(self, "model_deps", {}).get(name, []))
 
     def use_contract(self, name):
         self.tr.cur.calls[name] = True
@@ -467,6 +540,27 @@ static inline void verif_lock_guard_dtor(std_lock_guard_std_mutex *g) { g->m->g_
                 return X("bin", "+", X("mem", o, "b"), X("mem", o, "n"), ty=Ty("ptr", to=T))
             if m == "operator[]":
                 return X("index", X("mem", o, "b"), tr.rv(args[0]), ty=T)
+            tracked = bool(tr.opts.get("tracked_vec")) and canon.startswith("std::vector<")
+            if m == "back":
+                return X("index", X("mem", o, "b"), X("bin", "-", X("mem", o, "n"), X("lit", "1ul")), ty=T)
+            if m == "front":
+                return X("index", X("mem", o, "b"), X("lit", "0ul"), ty=T)
+            if tracked:
+                VOID = Ty("builtin", name="void")
+                if m == "at":
+                    tr.cur.calls[s + "_at"] = True
+                    PT = Ty("ptr", to=T)
+                    return deref(X("callx", X("call", s + "_at", [addr(o), tr.rv(args[0])], ty=PT), s + "_at", tr.jump_text(), None, ty=PT))
+                if m == "resize" and len(args) == 1:
+                    tr.cur.calls[s + "_resize"] = True
+                    self.use_contract(s + "_grow_to")
+                    return X("callx", X("call", s + "_resize", [addr(o), tr.rv(args[0])], ty=VOID), s + "_resize", tr.jump_text(), None, ty=VOID)
+                if m == "clear":
+                    return X("call", s + "_clear", [addr(o)], ty=VOID)
+                if m == "push_back":
+                    tr.cur.calls[s + "_push_back"] = True
+                    self.use_contract(s + "_grow")
+                    return X("call", s + "_push_back", [addr(o), tr.bind_ref(args[0])], ty=VOID)
             if m in ("resize",):
                 VOID = Ty("builtin", name="void")
                 if len(args) == 1:
@@ -582,16 +676,27 @@ static inline void verif_lock_guard_dtor(std_lock_guard_std_mutex *g) { g->m->g_
                     return o
             else:
                 op = m[len("operator"):]
-                if op in ("==", "!=", "<", ">", "<=", ">=", "-"):
-                    return X("bin", op, vals[0], vals[1], ty=parse_type("bool") if op != "-" else parse_type("long"))
+                if op == "-":
+                    return self.ptrdiff(vals[0], vals[1])
+                if op in ("==", "!=", "<", ">", "<=", ">="):
+                    return X("bin", op, vals[0], vals[1], ty=parse_type("bool"))
             raise ExtractionBreak("iterator operation '%s' has no model" % q)
         # ---- memory / C strings
         base = q[5:] if q.startswith("std::") else q
+        if base in ("find_if", "stable_partition", "partition") and len(args) == 3:
+            return self.algorithm(base, args, ps)
+        if base == "make_pair" and len(args) == 2:
+            rt = parse_type(rets)
+            tr.need_record(rt.name)
+            tr.rule("std::make_pair model")
+            pv = X("var", "__mp", ty=rt)
+            return X("sexpr", [X("decl", rt, "__mp", None), X("expr", X("assign", "=", X("mem", pv, "first"), tr.rv(args[0]))),
+                               X("expr", X("assign", "=", X("mem", pv, "second"), tr.rv(args[1])))], pv, ty=rt)
         if base == "distance" and len(args) == 2:
             pt = parse_type(ps[0])
             if pt.kind == "ptr":
                 tr.rule("std::distance on pointers")
-                return X("bin", "-", tr.rv(args[1]), tr.rv(args[0]), ty=parse_type("long"))
+                return self.ptrdiff(tr.rv(args[1]), tr.rv(args[0]))
         if base in ("isalpha", "isdigit", "isspace", "isalnum", "isupper", "islower", "ispunct") and len(args) == 1:
             tr.rule("ctype model")
             tr.assume("<cctype> classification", "isalpha/isdigit/isspace/isalnum/isupper/islower as in the C locale (ASCII)")
@@ -622,6 +727,99 @@ static inline int verif_ispunct(int c) { return c > 32 && c < 127 && !verif_isal
             return X("call", "verif_strlen", [tr.rv(args[0])], ty=parse_type("unsigned long"))
         return None
 
+
+    # ---- <algorithm> over pointer ranges with a closure predicate: reference models as C code, one per call operator.
+    #      Loop contracts for them come from the unit option model_loops (they mention the predicate, so they are unit-specific).
+    def algorithm(self, base, args, ps):
+        tr = self.tr
+        it = tr.ety(args[0]).noref()
+        it = tr.lower(it) if hasattr(tr, "lower") else it
+        if it.kind == "rec":
+            a = self.alias(it.name)
+            if a is None:
+                raise ExtractionBreak("std::%s over iterator type %s" % (base, it.name))
+            it = a
+        if it.kind != "ptr":
+            raise ExtractionBreak("std::%s over non-pointer iterator %s" % (base, it.key()))
+        T = tr.ctype(it.to)
+        ct = tr.ety(args[2]).noref()
+        if ct.kind != "rec":
+            raise ExtractionBreak("std::%s with a non-class predicate" % base)
+        rid = tr.ast.Rname.get(ct.name)
+        op = None
+        for c in tr.ast.nodes.get(rid, {}).get("inner", []):
+            if c.get("kind") == "CXXMethodDecl" and c.get("name") == "operator()":
+                op = c["id"]
+        if op is None:
+            raise ExtractionBreak("std::%s: predicate class '%s' has no operator()" % (base, ct.name))
+        opn = tr.request(op)
+        _, ops = fn_ret_type(tr.ast.D[op]["type"])
+        byref = parse_type(ops[0]).kind == "ref"
+        CL = tr.ctype(ct)
+        name = "verif_%s__%s" % (base, opn)
+        E = lambda p: "%s(&pred, %s%s)" % (opn, "" if byref else "*", p)
+        ML = tr.opts.get("model_loops", {})
+        def L(k):
+            return ML.get("%s:%d:%s" % (base, k, opn), ML.get("%s:%d" % (base, k), ""))
+        if base == "find_if":
+            body = """
+static %(T)s *%(name)s(%(T)s *first, %(T)s *last, %(CL)s pred)
+{
+  %(T)s *verif_first0 = first;
+  for (; first != last; ++first)
+%(L1)s
+  { if (%(Ef)s) return first; }
+  return last;
+}
+""" % dict(T=T, name=name, CL=CL, L1=L(1), Ef=E("first"))
+        elif base == "stable_partition":
+            body = """
+static %(T)s *%(name)s(%(T)s *first, %(T)s *last, %(CL)s pred)
+{
+  unsigned long n = first == last ? 0ul : (unsigned long)(last - first), r = 0, k;
+  %(T)s *tmp = n ? (%(T)s *)verif_malloc(n * sizeof(%(T)s)) : 0;
+  %(T)s *w = first;
+  for (%(T)s *p = first; p != last; ++p)
+%(L1)s
+  { if (%(Ep)s) { *w = *p; ++w; } else { tmp[r] = *p; ++r; } }
+  for (k = 0; k < r; ++k)
+%(L2)s
+  { w[k] = tmp[k]; }
+  if (tmp) free(tmp);
+  return w;
+}
+""" % dict(T=T, name=name, CL=CL, L1=L(1), L2=L(2), Ep=E("p"))
+        else:
+            body = """
+static %(T)s *%(name)s(%(T)s *first, %(T)s *last, %(CL)s pred)
+{
+  while (1)
+  {
+    while (1) { if (first == last) return first; else if (%(Ef)s) ++first; else break; }
+    --last;
+    while (1) { if (first == last) return first; else if (!%(El)s) --last; else break; }
+    { %(T)s t = *first; *first = *last; *last = t; }
+    ++first;
+  }
+}
+""" % dict(T=T, name=name, CL=CL, Ef=E("first"), El=E("last"))
+        self.text.setdefault("algo:" + name, body)
+        self.model_deps = getattr(self, "model_deps", {})
+        self.model_deps[name] = [opn]
+        tr.cur.calls[name] = True
+        tr.cur.calls[opn] = True
+        tr.rule("std::%s model" % base)
+        tr.assume("std::%s" % base, "reference model as C code over a pointer range (lib/stdlib.py): " + {"find_if": "first element satisfying the predicate, else last", "stable_partition": "elements satisfying the predicate first, both groups in their original order (buffer-based)", "partition": "libstdc++'s bidirectional-iterator algorithm (swap from both ends)"}[base])
+        cl = tr.lv(args[2]) if tr.is_glvalue(args[2]) else tr.rv(args[2])
+        return X("call", name, [tr.rv(args[0]), tr.rv(args[1]), cl], ty=it)
+
+    def ptrdiff(self, a, b):
+        """iterator difference a - b; equal iterators (incl. the null begin()/end() of an empty vector) give 0 as in C++"""
+        tr = self.tr
+        L = parse_type("long")
+        ta, tb = tr.newtmp(a.ty), tr.newtmp(b.ty)
+        return X("comma", X("comma", X("assign", "=", ta, a), X("assign", "=", tb, b)),
+                 X("cond", X("bin", "==", ta, tb), X("lit", "0l", ty=L), X("bin", "-", ta, tb, ty=L), ty=L), ty=L)
 
     def atomic_op(self, m, v, VT, nonmo, args):
         tr = self.tr
